@@ -76,7 +76,7 @@ def hexDigitVal (c : UInt8) : Nat :=
 
 def hexValue (ds : Bytes) : Nat := ds.foldl (fun a c => a * 16 + hexDigitVal c) 0
 
-def decimalOfNat (n : Nat) : Bytes := (toString n).toUTF8.toList
+def decimalOfNat (n : Nat) : Bytes := Bytes.ofString (toString n)
 
 def twoCharOps : List (UInt8 × UInt8 × TokKind) :=
   [(61, 61, .eq), (61, 126, .cieq), (33, 61, .ne), (33, 126, .cine), (60, 61, .le), (62, 61, .ge)]
